@@ -1,6 +1,11 @@
 import Crem.Model.Locking
 /-!
-The invariant behind `mutex_serialises` (property C16) and its preservation by every micro-step.
+The invariant behind `mutex_serialises` (property C16) and its preservation by every micro-step; then the frame
+lemmas (a micro-step of thread `t` changes only thread `t`; a client with an empty program never moves), the
+projection-by-thread lemmas (`proj`, `serialResps` keeps the tags of the log) and the lemmas about `posOf`
+(position of a client's `k`-th request in the log) used by `real_time`, `real_time_order`,
+`concurrent_is_spec_run` in `Properties/C16.lean`; last, a schedule reaching quiescence exists for every finite
+set of clients (serve them one after the other).
 -/
 namespace Crem.Locking
 
@@ -255,5 +260,365 @@ theorem inv_exec (s0 : S) (prog : Nat → List (Handler S L R)) (c : Config S L 
   induction sched generalizing c with
   | nil => exact hinv
   | cons t ts ih => exact ih (move c t) (inv_move s0 prog c t hinv)
+
+/-! ## frame: a micro-step of thread `t` changes only thread `t` -/
+
+theorem move_threads_other (c : Config S L R) (t t' : Nat) (h : t' ≠ t) :
+    (move c t).threads t' = c.threads t' := by
+  unfold move
+  simp only
+  split
+  · split
+    · rfl
+    · exact upd_other _ _ _ _ h
+  · split
+    · exact upd_other _ _ _ _ h
+    · rfl
+  · exact upd_other _ _ _ _ h
+  · exact upd_other _ _ _ _ h
+  · exact upd_other _ _ _ _ h
+
+/-- a thread that is idle with nothing left to send does not move -/
+theorem move_done (c : Config S L R) (t : Nat) (htodo : (c.threads t).todo = [])
+    (hph : (c.threads t).phase = .idle) : move c t = c := by
+  unfold move
+  simp only [hph, htodo]
+
+theorem exec_cons (c : Config S L R) (t : Nat) (ts : List Nat) : exec c (t :: ts) = exec (move c t) ts := rfl
+
+theorem exec_append (c : Config S L R) (s₁ s₂ : List Nat) : exec c (s₁ ++ s₂) = exec (exec c s₁) s₂ := by
+  simp [exec, List.foldl_append]
+
+/-- a thread that is not scheduled is not touched -/
+theorem exec_threads_not_scheduled (c : Config S L R) (sched : List Nat) (t : Nat) (h : t ∉ sched) :
+    (exec c sched).threads t = c.threads t := by
+  induction sched generalizing c with
+  | nil => rfl
+  | cons t' ts ih =>
+    rw [exec_cons, ih _ (fun hm => h (by simp [hm]))]
+    exact move_threads_other c t' t (fun e => h (by simp [e]))
+
+/-- a thread that is idle with nothing left to send stays exactly as it is under every schedule -/
+theorem exec_threads_done (c : Config S L R) (sched : List Nat) (t : Nat) (htodo : (c.threads t).todo = [])
+    (hph : (c.threads t).phase = .idle) : (exec c sched).threads t = c.threads t := by
+  induction sched generalizing c with
+  | nil => rfl
+  | cons t' ts ih =>
+    rw [exec_cons]
+    by_cases e : t = t'
+    · subst e; rw [move_done c t htodo hph]; exact ih c htodo hph
+    · have hm := move_threads_other c t' t e
+      rw [ih (move c t') (by rw [hm]; exact htodo) (by rw [hm]; exact hph), hm]
+
+/-- a client with an empty program stays idle, with nothing to send and nothing received, under every schedule -/
+theorem exec_initial_empty (s0 : S) (prog : Nat → List (Handler S L R)) (sched : List Nat) (t : Nat)
+    (h : prog t = []) :
+    (exec (initial s0 prog) sched).threads t = { todo := [], phase := .idle, out := [] } := by
+  rw [exec_threads_done _ _ _ (by simp [initial, h]) (by simp [initial])]
+  simp [initial, h]
+
+/-- quiescence needs checking only for the clients that have a program -/
+theorem quiescent_of_bounded (s0 : S) (prog : Nat → List (Handler S L R)) (sched : List Nat) (n : Nat)
+    (hempty : ∀ t, n ≤ t → prog t = [])
+    (hfin : ∀ t, t < n → ((exec (initial s0 prog) sched).threads t).todo = [] ∧
+      (match ((exec (initial s0 prog) sched).threads t).phase with | .idle => True | _ => False)) :
+    Quiescent (exec (initial s0 prog) sched) := by
+  intro t
+  by_cases h : t < n
+  · exact hfin t h
+  · rw [exec_initial_empty s0 prog sched t (hempty t (by omega))]
+    exact ⟨rfl, True.intro⟩
+
+/-! ## projections of thread-tagged lists -/
+
+theorem requestsOf_eq_proj (log : List (Nat × Handler S L R)) (t : Nat) : requestsOf log t = proj log t := rfl
+
+theorem respsOf_eq_proj (s0 : S) (log : List (Nat × Handler S L R)) (t : Nat) :
+    respsOf s0 log t = proj (serialResps s0 log) t := rfl
+
+@[simp] theorem proj_nil {α : Type} (t : Nat) : proj ([] : List (Nat × α)) t = [] := rfl
+
+theorem proj_cons {α : Type} (x : Nat × α) (xs : List (Nat × α)) (t : Nat) :
+    proj (x :: xs) t = if x.1 = t then x.2 :: proj xs t else proj xs t := by
+  by_cases h : x.1 = t <;> simp [proj, h]
+
+theorem proj_append {α : Type} (xs ys : List (Nat × α)) (t : Nat) : proj (xs ++ ys) t = proj xs t ++ proj ys t := by
+  simp [proj]
+
+theorem proj_map_snd {α β : Type} (f : α → β) (xs : List (Nat × α)) (t : Nat) :
+    proj (xs.map (fun x => (x.1, f x.2))) t = (proj xs t).map f := by
+  induction xs with
+  | nil => rfl
+  | cons x xs ih => simp only [List.map_cons, proj_cons, ih]; split <;> simp
+
+theorem mem_proj_of_mem {α : Type} (xs : List (Nat × α)) (x : Nat × α) (h : x ∈ xs) : x.2 ∈ proj xs x.1 := by
+  simp only [proj, List.mem_map, List.mem_filter]
+  exact ⟨x, ⟨h, by simp⟩, rfl⟩
+
+theorem serialResps_tags (s0 : S) (log : List (Nat × Handler S L R)) :
+    (serialResps s0 log).map (·.1) = log.map (·.1) := by
+  induction log generalizing s0 with
+  | nil => rfl
+  | cons x xs ih => cases x; simp only [serialResps, List.map_cons, ih]
+
+theorem zip_tags_serialResps (s0 : S) (log : List (Nat × Handler S L R)) :
+    (log.map (·.1)).zip ((serialResps s0 log).map (·.2)) = serialResps s0 log := by
+  induction log generalizing s0 with
+  | nil => rfl
+  | cons x xs ih => cases x; simp only [serialResps, List.map_cons, List.zip_cons_cons, ih]
+
+theorem respsOf_length (s0 : S) (log : List (Nat × Handler S L R)) (t : Nat) :
+    (respsOf s0 log t).length = (requestsOf log t).length := by
+  induction log generalizing s0 with
+  | nil => rfl
+  | cons x xs ih =>
+    cases x
+    simp only [respsOf_eq_proj, requestsOf_eq_proj, serialResps, proj_cons] at ih ⊢
+    split <;> simp [ih]
+
+theorem respsOf_append (s0 : S) (xs ys : List (Nat × Handler S L R)) (t : Nat) :
+    respsOf s0 (xs ++ ys) t = respsOf s0 xs t ++ respsOf (serial s0 xs) ys t := by
+  simp only [respsOf_eq_proj, serialResps_append, proj_append]
+
+theorem requestsOf_append (xs ys : List (Nat × Handler S L R)) (t : Nat) :
+    requestsOf (xs ++ ys) t = requestsOf xs t ++ requestsOf ys t := proj_append xs ys t
+
+/-- the responses of the completed requests are a prefix of those of the logged requests -/
+theorem respsOf_completed_prefix (s0 : S) (c : Config S L R) (t : Nat) :
+    respsOf s0 (completed c) t <+: respsOf s0 c.log t := by
+  unfold completed
+  split
+  · exact List.prefix_refl _
+  · rcases List.eq_nil_or_concat c.log with h | ⟨pre, x, h⟩
+    · rw [h]; exact List.prefix_refl _
+    · rw [h, List.concat_eq_append, List.dropLast_concat, respsOf_append]; exact List.prefix_append _ _
+
+/-! ## positions in a thread-tagged list -/
+
+theorem posOf_cons {α : Type} (x : Nat × α) (xs : List (Nat × α)) (t k : Nat) :
+    posOf (x :: xs) t k =
+      if x.1 = t then (match k with | 0 => some 0 | k + 1 => (posOf xs t k).map (· + 1))
+      else (posOf xs t k).map (· + 1) := rfl
+
+/-- `posOf xs t k = some p` says exactly: position `p` of `xs` carries tag `t` and exactly `k` entries before it do -/
+theorem posOf_eq_some_iff {α : Type} (xs : List (Nat × α)) (t k p : Nat) :
+    posOf xs t k = some p ↔ (∃ a, xs[p]? = some (t, a)) ∧ (proj (xs.take p) t).length = k := by
+  induction xs generalizing k p with
+  | nil => simp [posOf]
+  | cons x xs ih =>
+    obtain ⟨tx, a⟩ := x
+    rw [posOf_cons]
+    by_cases hx : tx = t
+    · subst hx
+      simp only [if_true]
+      cases k with
+      | zero =>
+        cases p with
+        | zero => simp
+        | succ p => simp [proj_cons]
+      | succ k =>
+        cases p with
+        | zero => simp
+        | succ p => simp [proj_cons, ih]
+    · simp only [hx, if_false]
+      cases p with
+      | zero => simp [hx]
+      | succ p => simp [proj_cons, hx, ih]
+
+theorem posOf_lt_length {α : Type} (xs : List (Nat × α)) (t k p : Nat) (h : posOf xs t k = some p) :
+    p < xs.length := by
+  obtain ⟨⟨a, ha⟩, _⟩ := (posOf_eq_some_iff xs t k p).1 h
+  exact (List.getElem?_eq_some_iff.1 ha).1
+
+/-- the entry at `posOf xs t k` is the `k`-th entry of thread `t` -/
+theorem posOf_entry {α : Type} (xs : List (Nat × α)) (t k p : Nat) (h : posOf xs t k = some p) :
+    ∃ a, xs[p]? = some (t, a) ∧ (proj xs t)[k]? = some a := by
+  obtain ⟨⟨a, ha⟩, hk⟩ := (posOf_eq_some_iff xs t k p).1 h
+  refine ⟨a, ha, ?_⟩
+  have hp := (List.getElem?_eq_some_iff.1 ha)
+  obtain ⟨hlt, hget⟩ := hp
+  have hsplit : xs = xs.take p ++ (t, a) :: xs.drop (p + 1) := by
+    rw [← hget, List.getElem_cons_drop, List.take_append_drop]
+  rw [hsplit, proj_append, proj_cons]
+  simp only [if_true]
+  rw [List.getElem?_append_right (by omega), hk]
+  simp
+
+theorem posOf_isSome {α : Type} (xs : List (Nat × α)) (t k : Nat) (h : k < (proj xs t).length) :
+    ∃ p, posOf xs t k = some p := by
+  induction xs generalizing k with
+  | nil => simp at h
+  | cons x xs ih =>
+    rw [posOf_cons]
+    rw [proj_cons] at h
+    by_cases hx : x.1 = t
+    · simp only [hx, if_true] at h ⊢
+      cases k with
+      | zero => exact ⟨0, rfl⟩
+      | succ k =>
+        obtain ⟨p, hp⟩ := ih k (by simpa using h)
+        exact ⟨p + 1, by simp [hp]⟩
+    · simp only [hx, if_false] at h ⊢
+      obtain ⟨p, hp⟩ := ih k h
+      exact ⟨p + 1, by simp [hp]⟩
+
+theorem posOf_append_left {α : Type} (xs ys : List (Nat × α)) (t k p : Nat) (h : posOf xs t k = some p) :
+    posOf (xs ++ ys) t k = some p := by
+  have hlt := posOf_lt_length xs t k p h
+  rw [posOf_eq_some_iff] at h ⊢
+  rw [List.getElem?_append_left hlt, List.take_append_of_le_length (by omega)]
+  exact h
+
+/-- an entry of thread `t` beyond those in `xs` sits beyond `xs` -/
+theorem posOf_append_ge {α : Type} (xs ys : List (Nat × α)) (t k p : Nat) (hk : (proj xs t).length ≤ k)
+    (h : posOf (xs ++ ys) t k = some p) : xs.length ≤ p := by
+  apply Nat.le_of_not_lt
+  intro hlt
+  obtain ⟨a, ha, hka⟩ := posOf_entry _ _ _ _ h
+  obtain ⟨_, hcount⟩ := (posOf_eq_some_iff _ _ _ _).1 h
+  rw [List.getElem?_append_left hlt] at ha
+  rw [List.take_append_of_le_length (by omega)] at hcount
+  obtain ⟨_, hget⟩ := List.getElem?_eq_some_iff.1 ha
+  have hsplit : xs = xs.take p ++ (t, a) :: xs.drop (p + 1) := by
+    rw [← hget, List.getElem_cons_drop, List.take_append_drop]
+  rw [hsplit, proj_append, proj_cons] at hk
+  simp at hk
+  omega
+
+/-- `posOf` looks at the tags only -/
+theorem posOf_congr_tags {α β : Type} (xs : List (Nat × α)) (ys : List (Nat × β))
+    (h : xs.map (·.1) = ys.map (·.1)) (t k : Nat) : posOf xs t k = posOf ys t k := by
+  induction xs generalizing ys k with
+  | nil =>
+    cases ys with
+    | nil => rfl
+    | cons y ys => simp at h
+  | cons x xs ih =>
+    cases ys with
+    | nil => simp at h
+    | cons y ys =>
+      simp only [List.map_cons, List.cons.injEq] at h
+      rw [posOf_cons, posOf_cons, h.1]
+      split
+      · cases k with
+        | zero => rfl
+        | succ k => simp only [ih ys h.2]
+      · rw [ih ys h.2]
+
+/-! ## a schedule that reaches quiescence exists (serve the clients one after the other) -/
+
+theorem move_idle_cons (c : Config S L R) (t : Nat) (h : Handler S L R) (rest : List (Handler S L R))
+    (hp : (c.threads t).phase = .idle) (htodo : (c.threads t).todo = h :: rest) :
+    (move c t).lock = c.lock ∧ ((move c t).threads t).phase = .arrived h ∧ ((move c t).threads t).todo = rest := by
+  unfold move; simp [hp, htodo]
+
+theorem move_arrived_free (c : Config S L R) (t : Nat) (h : Handler S L R)
+    (hp : (c.threads t).phase = .arrived h) (hlock : c.lock = none) :
+    (move c t).lock = some t ∧ ((move c t).threads t).phase = .running h h.pre h.steps ∧
+      ((move c t).threads t).todo = (c.threads t).todo := by
+  unfold move; simp [hp, hlock]
+
+theorem move_running_cons (c : Config S L R) (t : Nat) (h : Handler S L R) (l : L) (f : L × S → L × S)
+    (fs : List (L × S → L × S)) (hp : (c.threads t).phase = .running h l (f :: fs)) :
+    (move c t).lock = c.lock ∧ ((move c t).threads t).phase = .running h (f (l, c.shared)).1 fs ∧
+      ((move c t).threads t).todo = (c.threads t).todo := by
+  unfold move; simp [hp]
+
+theorem move_running_nil (c : Config S L R) (t : Nat) (h : Handler S L R) (l : L)
+    (hp : (c.threads t).phase = .running h l []) :
+    (move c t).lock = none ∧ ((move c t).threads t).phase = .responding h l ∧
+      ((move c t).threads t).todo = (c.threads t).todo := by
+  unfold move; simp [hp]
+
+theorem move_responding (c : Config S L R) (t : Nat) (h : Handler S L R) (l : L)
+    (hp : (c.threads t).phase = .responding h l) :
+    (move c t).lock = c.lock ∧ ((move c t).threads t).phase = .idle ∧
+      ((move c t).threads t).todo = (c.threads t).todo := by
+  unfold move; simp [hp]
+
+theorem exec_replicate_succ (c : Config S L R) (t n : Nat) :
+    exec c (List.replicate (n + 1) t) = exec (move c t) (List.replicate n t) := rfl
+
+/-- inside the critical section, as many moves as there are micro-steps left bring the thread to the release point -/
+theorem exec_running (c : Config S L R) (t : Nat) (h : Handler S L R) (l : L) (rem : List (L × S → L × S))
+    (hp : (c.threads t).phase = .running h l rem) :
+    ∃ l', ((exec c (List.replicate rem.length t)).threads t).phase = .running h l' [] ∧
+      ((exec c (List.replicate rem.length t)).threads t).todo = (c.threads t).todo ∧
+      (exec c (List.replicate rem.length t)).lock = c.lock := by
+  induction rem generalizing c l with
+  | nil => exact ⟨l, hp, rfl, rfl⟩
+  | cons f fs ih =>
+    rw [List.length_cons, exec_replicate_succ]
+    obtain ⟨m1, m2, m3⟩ := move_running_cons c t h l f fs hp
+    obtain ⟨l', h1, h2, h3⟩ := ih (move c t) _ m2
+    exact ⟨l', h1, by rw [h2, m3], by rw [h3, m1]⟩
+
+/-- with the lock free, an idle thread serves its next request completely in `steps.length + 4` moves of its own -/
+theorem exec_serve_one (c : Config S L R) (t : Nat) (h : Handler S L R) (rest : List (Handler S L R))
+    (hlock : c.lock = none) (hp : (c.threads t).phase = .idle) (htodo : (c.threads t).todo = h :: rest) :
+    (exec c ([t, t] ++ (List.replicate h.steps.length t ++ [t, t]))).lock = none ∧
+    ((exec c ([t, t] ++ (List.replicate h.steps.length t ++ [t, t]))).threads t).phase = .idle ∧
+    ((exec c ([t, t] ++ (List.replicate h.steps.length t ++ [t, t]))).threads t).todo = rest := by
+  obtain ⟨a1, a2, a3⟩ := move_idle_cons c t h rest hp htodo
+  obtain ⟨b1, b2, b3⟩ := move_arrived_free (move c t) t h a2 (by rw [a1, hlock])
+  obtain ⟨l', c1, c2, c3⟩ := exec_running (move (move c t) t) t h h.pre h.steps b2
+  obtain ⟨d1, d2, d3⟩ := move_running_nil _ t h l' c1
+  obtain ⟨e1, e2, e3⟩ := move_responding _ t h l' d2
+  rw [exec_append, exec_append]
+  exact ⟨e1.trans d1, e2, e3.trans (d3.trans (c2.trans (b3.trans a3)))⟩
+
+/-- … and all its requests in some number of moves of its own -/
+theorem exec_serve_all (c : Config S L R) (t : Nat) (hlock : c.lock = none) (hp : (c.threads t).phase = .idle) :
+    ∃ n, (exec c (List.replicate n t)).lock = none ∧ ((exec c (List.replicate n t)).threads t).phase = .idle ∧
+      ((exec c (List.replicate n t)).threads t).todo = [] := by
+  generalize htodo : (c.threads t).todo = todo
+  induction todo generalizing c with
+  | nil => exact ⟨0, hlock, hp, htodo⟩
+  | cons h rest ih =>
+    obtain ⟨s1, s2, s3⟩ := exec_serve_one c t h rest hlock hp htodo
+    obtain ⟨n, r1, r2, r3⟩ := ih _ s1 s2 s3
+    refine ⟨(h.steps.length + 4) + n, ?_⟩
+    have hs : List.replicate ((h.steps.length + 4) + n) t =
+        ([t, t] ++ (List.replicate h.steps.length t ++ [t, t])) ++ List.replicate n t := by
+      rw [show [t, t] = List.replicate 2 t from rfl, List.replicate_append_replicate,
+        List.replicate_append_replicate, List.replicate_append_replicate]
+      congr 1
+      omega
+    rw [hs, exec_append]
+    exact ⟨r1, r2, r3⟩
+
+/-- serving the clients `0, …, n-1` one after the other -/
+theorem exists_serial_schedule (s0 : S) (prog : Nat → List (Handler S L R)) (n : Nat) :
+    ∃ sched, (∀ t ∈ sched, t < n) ∧ (exec (initial s0 prog) sched).lock = none ∧
+      ∀ t, t < n → ((exec (initial s0 prog) sched).threads t).todo = [] ∧
+        ((exec (initial s0 prog) sched).threads t).phase = .idle := by
+  induction n with
+  | zero => exact ⟨[], by simp, rfl, by omega⟩
+  | succ n ih =>
+    obtain ⟨sched, hlt, hlock, hdone⟩ := ih
+    have hn : (exec (initial s0 prog) sched).threads n = (initial s0 prog).threads n :=
+      exec_threads_not_scheduled _ _ _ (fun hm => Nat.lt_irrefl _ (hlt n hm))
+    obtain ⟨k, r1, r2, r3⟩ := exec_serve_all (exec (initial s0 prog) sched) n hlock (by rw [hn]; rfl)
+    refine ⟨sched ++ List.replicate k n, ?_, ?_, ?_⟩
+    · intro t ht
+      rcases List.mem_append.1 ht with h | h
+      · exact Nat.lt_succ_of_lt (hlt t h)
+      · rw [(List.mem_replicate.1 h).2]; exact Nat.lt_succ_self n
+    · rw [exec_append]; exact r1
+    · intro t ht
+      rw [exec_append]
+      by_cases e : t = n
+      · subst e; exact ⟨r3, r2⟩
+      · rw [exec_threads_not_scheduled _ _ _ (fun hm => e (List.mem_replicate.1 hm).2)]
+        exact hdone t (by omega)
+
+/-- **`Quiescent` is satisfiable for every finite set of clients**: there is a schedule that lets everybody finish -/
+theorem exists_quiescent_schedule (s0 : S) (prog : Nat → List (Handler S L R)) (n : Nat)
+    (hempty : ∀ t, n ≤ t → prog t = []) : ∃ sched, Quiescent (exec (initial s0 prog) sched) := by
+  obtain ⟨sched, _, _, hdone⟩ := exists_serial_schedule s0 prog n
+  refine ⟨sched, quiescent_of_bounded s0 prog sched n hempty ?_⟩
+  intro t ht
+  obtain ⟨h1, h2⟩ := hdone t ht
+  exact ⟨h1, by rw [h2]; exact True.intro⟩
 
 end Crem.Locking
